@@ -141,7 +141,7 @@ Print Assumptions converter_tables_wellformed.
       rule-list converter lets a context cause pass as exactly its kind and otherwise gives exactly the kind of the
       first rule that fires. *)
 Theorem converters_first_rule_decides :
-  (forall e, convert_io (convert_io e) = convert_io e /\
+  (forall e, chain e = true -> convert_io (convert_io e) = convert_io e /\
              (forall k, ctx_kind_of e = Some k -> convert_io e = Sent k) /\
              (ctx_kind_of e = None -> any (Some e) io_targets = true -> exactly (convert_io e) ErrEOF)) /\
   (forall rs e,
@@ -169,6 +169,22 @@ Example unfixed_nested_reason_refuted :
     reason_of_text (dres_text (deserialise (serialise_gen false e))) <> reason_part (skipn (List.length (ktext k)) (text e))
     /\ reason_of_text (dres_text (deserialise (serialise_gen true e))) = reason_part (skipn (List.length (ktext k)) (text e)).
 Proof. exact unfixed_nested_reason_refuted_l. Qed.
+
+(* The operands of the two theorems above range over COMPOSITES too (Multi: two %w, errors.Join): an error that is of a
+   library kind and a context error at the same time stands, in target position, for its context kind, and as a cause /
+   original it wins over every target — e.g. errors.Join(New(ErrConflict, ..), context.DeadlineExceeded). *)
+Example composites_are_covered :
+  let c := Multi [120] (new (Some (Sent ErrConflict)) [97]) CtxDeadline in
+  ctx_kind_of c = Some ErrTimeout /\ is_common (Some c) = true /\
+  given (new (Some c) [109]) ErrTimeout /\
+  exactly (wrap_if_not_common (Some (Sent ErrInvalid)) (Some c) [109]) ErrTimeout /\
+  exactly (wrap_error (Some c) (Some (Opaque [98])) [109]) ErrTimeout.
+Proof.
+  cbv zeta. split; [reflexivity|]. split; [vm_compute; reflexivity|]. split; [apply G_new, A_ctx; reflexivity|].
+  split; [apply (context_cause_wins (Some (Sent ErrInvalid)) _ ErrTimeout [109]); left; reflexivity|].
+  apply constructors_keep_kind. apply (G_wrap _ _ ErrTimeout None); [apply A_ctx; reflexivity|].
+  apply C_plain. vm_compute. auto.
+Qed.
 
 Example given_example :
   given (wrap_if_not_common (Some (Sent ErrInvalid)) (Some (wrap_error (Some (Sent ErrNotFound)) (Some CtxCanceled) [109])) [120]) ErrCancelled.
